@@ -14,6 +14,12 @@ from pDESy.model.base_project import BaseProject
 UNITS = (1, 2, 3, 5, 60)
 
 
+def runner_read_only(project):
+    from .. import runner
+
+    return runner.read_only_calls(project)
+
+
 def _ratio(u_sub, u_parent):
     """sub-project unit / parent unit, both as the timedelta objects hold them (microsecond resolution)"""
     return datetime.timedelta(minutes=u_sub).total_seconds() / datetime.timedelta(minutes=u_parent).total_seconds()
@@ -262,6 +268,35 @@ def one(tmpdir, d, absence, how, remove, u_sub, u_parent, position, tag, prior=N
         elif want >= 3 and prog != expect:
             out.append(("C20:sub-project-task-progress-steps-wrong-in-a-parent-run-stopped-and-continued-under-a-calendar", det))
         return out, want
+    if extra == "looked-at-pause":
+        want = int(math.ceil(dur * _ratio(u_sub, u_parent) - 1e-9))
+        start = 2 if position == "after-pred" else 0
+        k = start + max(1, want // 2)
+        try:
+            m.project.simulate(max_time=k, absence_time_list=[])
+            runner_read_only(m.project)  # queries, chart data builders, printing at the stop
+            m.project.simulate(max_time=MT, absence_time_list=[], initialize_state_info=False, initialize_log_info=False)
+        except Exception as e:
+            return out + [("C20:parent-simulate-raised:%s" % type(e).__name__, {"error": repr(e)})], None
+        log = [int(s) for s in t.state_record_list]
+        ks = [i for i, s in enumerate(log) if s == S.T_WORKING]
+        det = {"sub_duration": dur, "u_sub": u_sub, "u_parent": u_parent, "position": position, "paused_at": k, "log": log, "expected_steps": want, "expected_start": start, "time": m.project.time}
+        if want >= 2 and (ks != list(range(start, start + want)) or len(log) != m.project.time):
+            out.append(("C20:sub-project-task-WORKING-steps-wrong-after-the-parent-was-looked-at-at-a-pause", det))
+        return out, want
+    if extra == "file-rewritten":
+        # the sub-project is revised (twice as long) and saved to the SAME path; the task is configured again from it
+        path2, sub_time2, _st2 = make_sub(tmpdir, 2 * d, absence, how, u_sub, tag)
+        with warnings.catch_warnings():
+            warnings.simplefilter("ignore")
+            t.set_all_attributes_from_json(remove_absence_time_list=remove)
+        n2 = len([a for a in set(absence) if a < sub_time2])
+        dur2 = sub_time2 - (n2 if remove else 0)
+        if path2 != path:
+            out.append(("C20:harness-error-file-paths-differ", {"a": path, "b": path2}))
+        elif abs(t.default_work_amount - dur2) > 1e-9:
+            out.append(("C20:work-amount-not-updated-when-the-task-is-configured-again-from-a-revised-file", {"default_work_amount": t.default_work_amount, "expected": dur2}))
+        return out, None
     if extra == "reconfigure-at-pause":
         want = int(math.ceil(dur * _ratio(u_sub, u_parent) - 1e-9))
         start = 2 if position == "after-pred" else 0
@@ -434,6 +469,11 @@ def items(tier):
             for pos in ("alone", "after-pred"):
                 out.append((max(d, 2) * 2, (), "success", True, us, up, pos, None, False, None, "reconfigure-at-pause"))
             out.append((max(d, 3) * 2, (), "success", True, us, up, "alone", None, False, None, "paused-parent-calendar"))
+            for pos in ("alone", "after-pred"):
+                out.append((max(d, 2) * 2, (), "success", True, us, up, pos, None, False, None, "looked-at-pause"))
+            for ab in ((), (1,)):
+                for remove in (True, False):
+                    out.append((d, ab, "success", remove, us, up, "alone", None, False, None, "file-rewritten"))
             out.append((max(d, 3) * 3, (), "success", False, us, up, "alone", None, False, None, "paused-parent-calendar"))
         if d == durs[-1]:
             for dl in (101, 150, 240):  # very long sub-projects on unit ratios without a finite binary expansion (300 to 1000 parent steps: rounding may not add up)
